@@ -100,8 +100,25 @@ impl Property for C17 {
                 }
             }
         }
+        if family == "context" && rng.chance(1, 6) {
+            // lenient input: a raw line feed inside a string (jawk accepts it; RFC 8259 does
+            // not). Lines are counted by newlines wherever they are.
+            for p in case.pieces.iter_mut() {
+                if p.kind == Kind::Rec {
+                    let (b, n) = raw_line_feeds(&p.bytes.0);
+                    if n > 0 {
+                        p.bytes.0 = b;
+                        p.tag = "rawlf".into();
+                    }
+                }
+            }
+        }
         match family {
             "context" => {
+                if rng.chance(1, 5) {
+                    // a variables stage in front of the selections must not lose the context
+                    case.opts.push(vec!["--set".into(), (*rng.pick(&["one=1", "@inc=(+ . 1)", "name=\"N\""])).to_string()]);
+                }
                 for (sel, name) in CONTEXT_SELECTS {
                     case.opts.push(vec!["--select".into(), format!("{sel}={name}")]);
                 }
@@ -548,6 +565,7 @@ fn check_context(case: &Case, ctx: &mut Ctx) -> Option<Violation> {
     for o in &case.opts {
         let ok = (o[0] == "--select" && o.len() == 2 && CONTEXT_SELECTS.iter().any(|(s, n)| o[1] == format!("{s}={n}")))
             || o[0] == "--only-objects-and-arrays"
+            || (o[0] == "--set" && o.len() == 2)
             || o[0].starts_with("--on-error=");
         if !ok {
             ctx.stats.invalid = true;
@@ -642,8 +660,12 @@ fn check_context(case: &Case, ctx: &mut Ctx) -> Option<Violation> {
     }
     let text = String::from_utf8_lossy(&out.obs.stdout).to_string();
     let rows: Vec<&str> = text.split('\n').filter(|l| !l.is_empty()).collect();
-    let glued = case.pieces.iter().any(|p| p.kind == Kind::Garbage && p.tag == "glued");
-    if glued {
+    let rawlf = case.pieces.iter().any(|p| p.kind == Kind::Rec && p.tag == "rawlf");
+    if rawlf {
+        ctx.stats.probe("raw line feed inside a string");
+    }
+    let glued = rawlf || case.pieces.iter().any(|p| p.kind == Kind::Garbage && p.tag == "glued");
+    if glued && !rawlf {
         ctx.stats.probe("junk glued to the following value");
     }
     if rows.len() != known.len() && glued {
@@ -807,3 +829,36 @@ fn check_context(case: &Case, ctx: &mut Ctx) -> Option<Violation> {
     contains_violation
 }
 
+
+/// Replace the escape `\n` inside JSON strings by a raw line feed. Returns the new text
+/// and the number of replacements.
+fn raw_line_feeds(text: &[u8]) -> (Vec<u8>, usize) {
+    let mut out = Vec::with_capacity(text.len());
+    let mut n = 0;
+    let mut in_string = false;
+    let mut i = 0;
+    while i < text.len() {
+        let c = text[i];
+        if in_string {
+            if c == b'\\' && i + 1 < text.len() {
+                if text[i + 1] == b'n' {
+                    out.push(b'\n');
+                    n += 1;
+                } else {
+                    out.push(c);
+                    out.push(text[i + 1]);
+                }
+                i += 2;
+                continue;
+            }
+            if c == b'"' {
+                in_string = false;
+            }
+        } else if c == b'"' {
+            in_string = true;
+        }
+        out.push(c);
+        i += 1;
+    }
+    (out, n)
+}
